@@ -4,6 +4,22 @@ import json
 props=[json.loads(l) for l in open('/verif/properties.jsonl')]
 # id -> (technique, level text, level note)
 CLAIMED={
+ 'C03':("bounded-exhaustive enumeration of documents, all Unicode scalar values and complete float pattern sets against an independent strict RFC 8259 parser",
+        "both renderings of every document are parsed by the independent strict parser and compared with the document; pretty layout derived from the compact tokens",
+        "bounded universes; floats: complete 2^16 / 2^32 pattern sets, not all 2^64"),
+ 'C05':("bounded-exhaustive enumeration of documents x derived arguments against tree semantics",
+        "every accessor on every document with every argument derived from it; sub-values compared with the model encoder and strictly validated",
+        "bounded universes (depth<=3, width<=3)"),
+ 'C06':("bounded-exhaustive enumeration of documents/pairs x derived arguments against tree edits",
+        "every editor with every derived argument; all ordered pairs for binary functions; builders over all lists of <=3 parts",
+        "bounded universes"),
+ 'C10':("exhaustive fault enumeration: every fault of the alphabet at every offset, then every ordered pair (deviation bound 2), plus all short raw byte strings",
+        "every single fault at every offset of every corpus document, every ordered fault pair on short documents, every byte string of length<=3 (thorough: all 2^32 4-byte strings), text fallback corpus; giant counts in crash-isolated workers",
+        "three or more simultaneous faults and documents longer than the corpus are not covered"),
+ 'C17':("exhaustive enumeration of function x input x prior-buffer combinations plus explicit-state BFS over call batches into one buffer",
+        "every buffer-writing function on every document with 6 prior buffer contents; BFS over batches (state = whole buffer + offsets) to depth 3/4",
+        "bounded universe and batch depth"),
+
  'C01':("bounded-exhaustive enumeration of values (SWEEP) against an independent layout encoder/strict validator",
         "every value of the stated universes is encoded by the real encoder and compared byte-for-byte with an independent encoder written from the README, decoded by both decoders, re-encoded and strictly validated",
         "holds for the enumerated universes (depth<=3, width<=3, all code points singly, B64 numbers, chains<=64); the README transcription in refmodel::layout is trusted"),
